@@ -24,6 +24,9 @@ func CannedProbes() []refmodel.RObjectSetProbe {
 			{Kind: "condition", CondType: "Available", CondStatus: "True"},
 			{Kind: "cel", CEL: &refmodel.Expr{Op: "gt", Path: []string{"status", "ready"}, Lit: int64(-1)}, CELMessage: "ready must be reported"},
 		}},
+		// CEL rules whose (required, but possibly empty) message is empty: a failing probe that has nothing to say still fails
+		{Sel: cmSel, Probes: []refmodel.RProbe{{Kind: "cel", CEL: &refmodel.Expr{Op: "has", Path: []string{"data", "ready"}}, CELMessage: ""}}},
+		{Sel: w, Probes: []refmodel.RProbe{{Kind: "cel", CEL: &refmodel.Expr{Op: "eq", Path: []string{"status", "phase"}, Lit: "Ready"}, CELMessage: ""}}},
 	}
 }
 
